@@ -53,7 +53,7 @@ func (Prop) Describe() core.Description {
 // non-zero when y is): a lock-free implementation (crypto/rand, say) is legitimate and must
 // not trip the dead-probe guard.
 func quickProbes() []string {
-	return []string{"lock_contended if lock_acquired", "waiters_ge_2 if lock_acquired", "ids_ge_128_uniform"}
+	return []string{"lock_contended if lock_acquired", "waiters_ge_2 if lock_acquired", "ids_ge_128_uniform", "long_lived_run"}
 }
 
 func thoroughProbes() []string {
@@ -102,6 +102,17 @@ func (Prop) Run(t *core.Tape, o core.RunOpts) *core.Result {
 	if t.Bool(1, 3) {
 		clock = sched.ClockMode(t.Choose(int(sched.NumClockModes)))
 	}
+	// a rare "long-lived process" shape: thousands of calls in one run reach behaviour that
+	// only starts after N IDs (periodic re-seeding, counters, caches filling up)
+	if t.Bool(1, 400) {
+		n = [...]int{1, 2, 3, 8}[t.Choose(4)]
+		calls = (1030 + t.Choose(3200)) / n
+		if strategy == sched.SUniform {
+			strategy = sched.SSticky90
+		}
+		res.Probes.Inc("long_lived_run")
+	}
+	budget := int64(n*calls)*40 + 2000
 	salt := t.Word()
 	arrive := make([]int64, n)
 	staggered := t.Bool(1, 4)
@@ -118,7 +129,7 @@ func (Prop) Run(t *core.Tape, o core.RunOpts) *core.Result {
 			calls = 130/n + 1
 		}
 	}
-	budget := int64(n*calls)*40 + 2000
+	resetPackages() // every run starts from the package's initial state
 	s := sched.New(t, sched.Config{Strategy: strategy, Clock: clock, MaxSteps: budget, Keep: o.KeepTrace})
 	s.Salt = salt
 	s.Entropy = entropy
